@@ -74,13 +74,14 @@ fn run_tokio_writes(mode: &Mode, pkts: &[Packet], policy: &[WriteStep]) -> Resul
 pub fn judge(c: &WriteCase, ev: &mut Local) -> Result<(), Fail> {
     let mode = if c.compressed { Mode::Compressed } else { Mode::Uncompressed };
     let pkts = packets(c, &mode);
-    let codec = Codec::new(mode.clone());
     let mut expected = vec![];
     let mut encodable = vec![];
     let mut should_ok = vec![];
     let mut refused = 0usize;
     for p in &pkts {
-        match guard(|| codec.encode(p)) {
+        // the expected stream is the concatenation of *independent* encodings: a fresh codec per packet, so that state a
+        // connection's codec might carry from one packet to the next cannot leak into the oracle
+        match guard(|| Codec::new(mode.clone()).encode(p)) {
             Ok(Ok(b)) => {
                 expected.extend_from_slice(&b);
                 encodable.push(p.clone());
